@@ -357,7 +357,10 @@ theorem certify_stored {s : Sys} (hr : Reachable s) {ch : Handle} {n : Rcn} {R :
     ∃ evs s', s.exec (.childCertify ch n ki none na) = .stored evs s' ∧ Reachable s' ∧
       ParentSame s.ca s'.ca ch ∧
       s'.ca.issuedFor ch n ki = some { res := R, limit := none, na := na } ∧
-      (∀ q k, s'.ca.issuedIn q k = s.ca.issuedIn q k ∨ s'.ca.bookedExact ch q k) := by
+      (∀ q k, s'.ca.issuedIn q k = s.ca.issuedIn q k ∨ s'.ca.bookedExact ch q k) ∧
+      (∃ c c', get s.ca.children ch = some c ∧ get s'.ca.children ch = some c' ∧
+        get c'.usedKeys ki = some (.inUse (c.nameInParent n)) ∧
+        ∀ k, k ≠ ki → get c'.usedKeys k = get c.usedKeys k) := by
   obtain ⟨c, rc, hc, hq, hp⟩ := process_certify_of_answer ki na h
   obtain ⟨s', hex, happ, hr'⟩ := stored_of_process hr (c := _) (by exact trivial) hp
   refine ⟨_, s', hex, hr', ?_⟩
@@ -384,7 +387,8 @@ theorem certify_stored {s : Sys} (hr : Reachable s) {ch : Handle} {n : Rcn} {R :
   | none => rw [hk] at hans; cases hans
   | some k =>
     rw [hk] at hans; simp only [Option.some.injEq] at hans
-    refine ⟨⟨?_, ?_⟩, ?_, ?_⟩
+    refine ⟨⟨?_, ?_⟩, ?_, ?_, ⟨c, _, hc, hchild, get_set_self _ _ _,
+      fun k hk => get_set_ne _ _ (fun h => hk h.symm)⟩⟩
     · intro q
       rw [hcls q]
       split
